@@ -40,7 +40,7 @@ POOL: List[J] = [
     dop("a3", dct_std("A_ASCIISTRING", 24)),
     dop("w2", dct_std("A_UNICODE2STRING", 32)),
     dop("lin8", dct_std("A_UINT32", 8), "A_INT32", linear(-40, 1)),
-    dop("linf", dct_std("A_UINT32", 16), "A_FLOAT64", linear(0, 0.1)),
+    dop("linf", dct_std("A_UINT32", 16), "A_FLOAT64", linear(0, 0.001), precision=1),
     dop("txt", dct_std("A_UINT32", 8), "A_UNICODE2STRING",
         texttable([(0, "zero"), (1, "one"), (2, "two"), (200, "many")])),
     dop("mmz", dct_minmax("A_ASCIISTRING", 0, 6, "ZERO")),
